@@ -203,7 +203,9 @@ pub fn special_by_index(i: usize, r: &mut Rng) -> FormatSpecial {
         6 => FormatSpecial::TabVertical,
         7 => FormatSpecial::Null,
         8 => FormatSpecial::Backslash,
-        _ => FormatSpecial::Ascii(*r.pick(&[0o101u16, 0o040, 0o001, 0o177, 0o012, 0o060, 0o042, 0o134, 0o176, 0o045, 0o050, 0o000, 0o011, 0o200, 0o351, 0o377])),
+        // the last six only exist in hand-built trees (the parser stops at \\777): no byte value, a surrogate
+        // code point, the largest u16 - their meaning is unspecified, but compile() must still answer
+        _ => FormatSpecial::Ascii(*r.pick(&[0o101u16, 0o040, 0o001, 0o177, 0o012, 0o060, 0o042, 0o134, 0o176, 0o045, 0o050, 0o000, 0o011, 0o200, 0o351, 0o377, 0o400, 0o777, 0x1000, 0xD800, 0xDFFF, 0xFFFF])),
     }
 }
 
@@ -343,6 +345,28 @@ pub fn gen_action_kind(k: usize, r: &mut Rng) -> Action {
         5 => Action::FilePrint(r.pick(FILE_POOL).to_string()),
         6 => Action::FilePrintNull(r.pick(FILE_POOL).to_string()),
         _ => Action::FilePrintFormatted(r.pick(FILE_POOL).to_string(), gen_format(r, false)),
+    }
+}
+
+/// Degenerate values only a hand-built tree can carry (the parser never returns them): empty type list,
+/// empty strings, an empty format, the deprecated implicit-print action node, escape codes beyond a byte.
+#[allow(deprecated)]
+pub fn gen_odd_leaf(r: &mut Rng) -> Expression {
+    match r.below(14) {
+        0 => t(Test::Type(vec![])),
+        1 => t(Test::Name(String::new())),
+        2 => t(Test::InsensitivePath(String::new())),
+        3 => t(Test::Pool(String::new())),
+        4 => t(Test::Xattr(String::new())),
+        5 => t(Test::XattrMatch(String::new(), String::new())),
+        6 => act(Action::PrintFormatted(vec![])),
+        7 => act(Action::FilePrintFormatted("o".into(), vec![])),
+        8 => act(Action::FilePrint(String::new())),
+        9 => act(Action::DefaultPrint),
+        10 => act(Action::PrintFormatted(vec![FormatElement::Special(FormatSpecial::Ascii(*r.pick(&[0o400u16, 0x1000, 0xD800, 0xDBFF, 0xDC00, 0xDFFF, 0xFFFE, 0xFFFF])))])),
+        11 => act(Action::PrintFormatted(vec![FormatElement::Literal(String::new()), FormatElement::Literal("a".into()), FormatElement::Literal("b".into())])),
+        12 => t(Test::Type(vec![FileType::File, FileType::File, FileType::File])),
+        _ => act(Action::PrintFormatted(vec![FormatElement::Field(FormatField::AccessFormatted('\0')), FormatElement::Field(FormatField::XAttr(String::new()))])),
     }
 }
 
@@ -704,6 +728,9 @@ pub fn format_text(fmt: &[FormatElement]) -> Option<String> {
                 prev_digit_sensitive = false;
             }
             FormatElement::Special(s) => {
+                if matches!(s, FormatSpecial::Ascii(v) if *v > 0o777) {
+                    return None; // no text spells it: three octal digits at most
+                }
                 out.push_str(&special_text(s));
                 prev_lit = false;
                 prev_digit_sensitive = matches!(s, FormatSpecial::Null | FormatSpecial::Ascii(_));
